@@ -463,6 +463,44 @@ def r8_overlap_heights_used(idx, r):
         raise AnalysisError(f"only {n} loops over getBlocksBetweenElevations found")
 
 
+def r9_fresh_arrays_and_zero_minimum(idx, r):
+    """(a) The values mapped back onto a block are stored as NEW arrays: refilling the array the block already holds changes every other block
+    that shares it (blocks initialised from one `np.zeros(nG)`) and keeps its integer dtype.  (b) a minimum mesh size of 0 (or 0.0) is a value,
+    not 'no minimum': the optional attribute is compared with None, never evaluated for truth."""
+    f = idx.method(UM + ".ParamMapper", "_arrayParamSetter")
+    blk = f.params()[0]
+    sts = [s_ for s_ in iter_stores(f.node) if s_.kind == "subscript" and norm(s_.node.value) == f"{blk}.p"]
+    if not sts:
+        raise AnchorMissing("ParamMapper._arrayParamSetter: block.p[paramName] = ...")
+    env = single_assign_env(f.node)
+    for s_ in sts:
+        v = s_.value
+        fresh = isinstance(v, ast.Call) and (dotted(v.func) or "") in ("np.array", "numpy.array", "np.asarray", "np.copy", "list")
+        r.require(fresh, "arrayParamSetter:stores-a-new-array", f, node=s_.stmt,
+                  msg=f"`{norm(s_.stmt)}` stores an object the block (and possibly its siblings) already holds: blocks that share one initial array all end up with the last block's values")
+    holds = {s_.attr for s_ in iter_stores(f.node) if isinstance(s_.node, ast.Name) and s_.value is not None and f"{blk}.p[" in norm(s_.value)}
+    inplace = [s_ for s_ in iter_stores(f.node) if s_.kind in ("subscript", "subscript-aug") and isinstance(s_.node.value, ast.Name) and s_.node.value.id in holds]
+    r.require(not inplace, "arrayParamSetter:no-refill-in-place", f, node=inplace[0].stmt if inplace else None, msg=f"`{norm(inplace[0].stmt) if inplace else ''}` overwrites the block's existing array where it is")
+    g = idx.cls(UM + ".UniformMeshGenerator")
+    from ..astutil import truthiness_uses
+    n = 0
+    for name, fn in g.methods.items():
+        for x in ast.walk(fn.node):
+            tests = []
+            if isinstance(x, (ast.If, ast.IfExp, ast.While)):
+                tests.append(x.test)
+            elif isinstance(x, ast.BoolOp):
+                tests.extend(x.values)
+            elif isinstance(x, ast.UnaryOp) and isinstance(x.op, ast.Not):
+                tests.append(x.operand)
+            for t in tests:
+                if norm(t) == "self.minimumMeshSize":
+                    n += 1
+                    r.violate(f"UniformMeshGenerator.{name}:minimumMeshSize-compared-with-None", fn, "`self.minimumMeshSize` is evaluated for truth: a minimum of 0 / 0.0 silently switches off the decusping "
+                              "(and with it the anchors that keep fuel and control boundaries in the common mesh)", node=t)
+    r.ok("UniformMeshGenerator:minimumMeshSize-tests-scanned", g)
+
+
 def run(idx, chk):
     chk.explanation = (
         "C11: the two overlap-mapping functions are typed with role generators for overlap / destination / source heights: densities scale by "
@@ -488,3 +526,5 @@ def run(idx, chk):
                  necessary="volume-integrated totals are conserved by re-meshing")
     chk.run_rule("R11.8", "every accumulation over getBlocksBetweenElevations uses the overlap height it returns", lambda r: r8_overlap_heights_used(idx, r), floor=1,
                  necessary="volumes and atoms are apportioned by the overlap of source and destination intervals")
+    chk.run_rule("R11.9", "values mapped onto a block are stored as new arrays; the optional minimum mesh size is compared with None", lambda r: r9_fresh_arrays_and_zero_minimum(idx, r), floor=3,
+                 necessary="mapping back gives every block its own values; material boundaries stay in the mesh for every admitted minimum")
